@@ -220,7 +220,7 @@ def Inner.new (A : Arith) (offset : Nat) (time : Nat) (c : Cfg) : Inner :=
 def Inner.s (i : Inner) (k : Nat) : Nat := i.state.getD k 0
 
 def Inner.progress (A : Arith) (i : Inner) (time wander : Nat) (c : Cfg) : Option Inner :=
-  if time < i.ft then none   -- debug_assert!(time >= self.filter_time)
+  if time < i.ft then some i   -- the filter time is ahead of `time` (stale time base after a backward step): state kept
   else
     (timeSub time i.ft).map fun d =>
     let dt := durSeconds A d
